@@ -77,7 +77,12 @@ def thorough_extras(prop, repo, ctx):
         import negatives
         import mutants as mtool
         jobs = [(m, [prop]) for m in corpus.MUTANTS if any(e[0] == prop for e in m['expect'])]
-        njobs = [(m, [prop]) for m in negatives.NEGATIVES]
+        # all in-house behaviour-preserving edits, and a deterministic third of the independent refactors (a different
+        # third per property; `tools/mutants.py --negatives` runs all of them under every check)
+        import zlib
+        sel = zlib.crc32(prop.encode()) % 3
+        indep = [m for m in negatives.NEGATIVES if 'patch' in m]
+        njobs = [(m, [prop]) for m in negatives.NEGATIVES if 'patch' not in m] + [(m, [prop]) for i, m in enumerate(indep) if i % 3 == sel]
         with multiprocessing.Pool(12) as pool:
             res = pool.map(mtool.run_one, jobs + njobs)
         caught, missed, skipped, noisy = [], [], [], []
